@@ -24,8 +24,8 @@ second later than its ISO-8601 and float spellings).
 (j) SINCE accepts the spellings the documentation shows: the QUERY grammar's since_clause reaches both string_literal and integer.
 Does NOT decide the parser's arithmetic (digit-count boundaries, pre-1970, offsets), float epochs, or how ambiguous/skipped local times are resolved.
 """
-FLOOR = 11
-REQUIRED = ["C16.a", "C16.b", "C16.c", "C16.d", "C16.e", "C16.f", "C16.g", "C16.h", "C16.i", "C16.j", "C16.k"]
+FLOOR = 12
+REQUIRED = ["C16.a", "C16.b", "C16.c", "C16.d", "C16.e", "C16.f", "C16.g", "C16.h", "C16.i", "C16.j", "C16.k", "C16.l"]
 
 CHRONO_PARSE = re.compile(r"^chrono::.*(parse_from_rfc3339|parse_from_rfc2822|parse_from_str|parse_and_remainder|FromStr>::from_str)$|^(time|humantime|dateparser|iso8601)::")
 PARSER_FNS = {"shared::time::TimeParser::parse_str_to_epoch_seconds", "shared::time::TimeParser::normalize_json_value"}
@@ -399,3 +399,54 @@ def run(ctx):
                 bad.append(("numeric-spelling-not-scaled:%s" % nm, "TimeParser::normalize_json_value stores the %s view of a number without the s / ms / us / ns scaling of normalize_integer_epoch: the same instant written as a float (1709652600000.0) and as an integer is stored as two different values" % nm, sp(n, v.bb)))
         return bad
     ctx.run("C16.k", "K11 SIB", "TimeParser::normalize_json_value", "integer and float spellings of an epoch are scaled alike", k_)
+
+    def l_(inst):
+        # a calendar day / week / month / year is one bucket even when its first local time occurs twice
+        # (clocks set back at midnight): only an hour bucket may start at the second occurrence
+        bad = []
+        grains = {}
+        for g in ("hour", "day", "week", "month", "year"):
+            grains[g] = F.fn("CalendarTimeBucketer::bucket_%s" % g)
+        checked = 0
+        for g in ("day", "week", "month", "year"):
+            b = grains[g]
+            locs = []
+            for c in b.calls:
+                if c.cleanup or not c.callee or not F.has(c.callee):
+                    continue
+                L = F.fn_exact(c.callee)
+                if enum_switches_on(L, lambda leaves: True, adt_re=r"chrono::offset::LocalResult"):
+                    locs.append((c, L))
+            if not locs:
+                raise AnchorMissing("bucket_%s: the helper that interprets the bucket's local start (a switch on chrono LocalResult)" % g)
+            for c, L in locs:
+                checked += 1
+                inst.sites.append(sp(b, c.bb) + " bucket_%s -> %s" % (g, L.key.split("::")[-1]))
+                for i in sorted(L.live_blocks()):
+                    for st in L.blocks[i]["s"]:
+                        if st.get("a") != [0] or "v" not in st or st["v"].get("r") != "use":
+                            continue
+                        lv = L.origins(st["v"]["o"])
+                        if not any(isinstance(l[-1], tuple) and "@Ambiguous" in l[-1] and ".1" in l[-1] for l in lv):
+                            continue
+                        # block i returns the second occurrence: which parameter switches it on, and what does bucket_<g> pass?
+                        guards = [(j, si) for (j, si) in bool_switches_on(L, lambda leaves: any(l[0] == "param" for l in leaves)) if L.dominates_edge((j, si["true"]), i)]
+                        off = False
+                        for j, si in guards:
+                            for l in L.origins(si["op"]):
+                                if l[0] != "param":
+                                    continue
+                                pidx = [n_ for n_ in range(1, len(c.args) + 1) if L.local_name(n_) == l[1]]
+                                if pidx and c.args[pidx[0] - 1].get("k") == "false":
+                                    off = True
+                        if not off:
+                            bad.append(("second-occurrence:%s" % g, "bucket_%s can start a bucket at the second occurrence of a repeated local time: in a zone that sets its clocks back at midnight the %s is split into two buckets" % (g, g), sp(L, i)))
+        if checked < 4:
+            raise AnchorMissing("localising helper calls of the four calendar granularities (%d)" % checked)
+        seen, out = set(), []
+        for x in bad:
+            if x[0] not in seen:
+                seen.add(x[0])
+                out.append(x)
+        return out
+    ctx.run("C16.l", "K8 GUARD + K6", "CalendarTimeBucketer::bucket_{day,week,month,year}", "a repeated local midnight does not split a calendar bucket", l_)
